@@ -19,7 +19,7 @@ import z3
 
 from . import core, sums, source
 from .core import ObjV, SymList, MapSeq, LArr, LArr2, HeapArr1, HeapArr2, Unsupported, CheckerError, is_z3, to_z3num, to_real, fresh, conj, disj, neg, ite, NONE
-from .interp import ImpliesV, Interp, Obligation, QFact, ForallV, ExistsV, explore, Chooser, _Return, _Raise, _Continue, Infeasible, concrete_int, is_arr
+from .interp import ImpliesV, Interp, Obligation, QFact, ForallV, ExistsV, explore, Chooser, _Return, _Raise, _Continue, Infeasible, Aborted, concrete_int, is_arr
 
 
 TrackingHeap = core.Heap
@@ -274,6 +274,15 @@ def verify_function(qualname, contract, schema, timeout_ms=10000, contracts=None
     path_no = [0]
     body_stmts = fi.body()
     frag = contract.get("fragment")
+    if frag is not None and "after" in frag:
+        # the contract is on the tail of the function: every top-level statement after the one whose source text starts with
+        # the given text (the variables bound before it are contract parameters)
+        idx = [i for i, st in enumerate(body_stmts) if ast.unparse(st).replace('"', "'").startswith(frag["after"].replace('"', "'"))]
+        if len(idx) != 1:
+            raise Unsupported("fragment: %d top-level statements start with %r in %s" % (len(idx), frag["after"], qualname))
+        rep.fragment = "statements after line %d (`%s ...`)" % (body_stmts[idx[0]].lineno, frag["after"][:40])
+        body_stmts = body_stmts[idx[0] + 1:]
+        frag = None
     if frag is not None:
         # the contract is on a loop body: the statements of the `for` whose iterable has the given source text, executed
         # for an arbitrary element (the loop variable is a contract parameter)
@@ -356,6 +365,9 @@ def verify_function(qualname, contract, schema, timeout_ms=10000, contracts=None
             out.kind = "raise"
             out.exc = r.exc_class
             out.line = getattr(r.node, "lineno", None)
+        except Aborted:
+            # the path ran into a point recorded as "must be unreachable": keep that obligation (it decides the path)
+            out.kind = "abort"
         rel = contract.get("relational")
         if rel is not None and out.kind == "return":
             # second execution of the same function with some parameters replaced (relational clause: monotonicity etc.)
@@ -400,6 +412,11 @@ def verify_function(qualname, contract, schema, timeout_ms=10000, contracts=None
         it.spec_mode = True
         it.definedness = False
         it.old_state = (old_heap, old_env)
+        if out.kind == "abort":
+            for ob in it.obligations:
+                ob.replay_ctx = (fi, old_env, it._mro)
+                ob.entry = entry_state
+            return it.obligations, out
         if out.kind == "return":
             post_env = dict(it.live_env)  # parameter names denote the objects passed in, in their final state; old(x) their entry state
             post_env["result"] = out.value
@@ -465,7 +482,7 @@ def verify_function(qualname, contract, schema, timeout_ms=10000, contracts=None
     must = contract.get("reachable", [])
     kinds = set()
     for obls, out in results:
-        kinds.add(out.kind if out.kind == "return" else "raise:" + out.exc)
+        kinds.add(out.kind if out.kind in ("return", "abort") else "raise:" + out.exc)
     for m in must:
         if m not in kinds:
             ob = Obligation("reachable:%s" % m, "cover", [], z3.BoolVal(False), None)
